@@ -41,6 +41,7 @@ pub struct Opts {
     pub stack: usize,
     pub seed: u64,
     pub timeout_ms: u64,
+    pub op_sleep_us: u64,
 }
 
 struct Sched {
@@ -464,6 +465,7 @@ fn stats_event(foreign: &[usize]) -> Value {
 pub fn run(input: &str, output: &str, opts: Opts) -> std::io::Result<i32> {
     let s = shared();
     rt::IS_SCHED.with(|c| c.set(true));
+    s.op_sleep_us.store(opts.op_sleep_us, Ordering::Relaxed);
     verif::set_manual(true);
     verif::set_ring_capacity(opts.ring);
     verif::set_queue_capacity(opts.queue);
